@@ -63,7 +63,12 @@ def from_plan(shape, feats, i, for_codec=True):
     fs.append(field(nm("b"), vec(opt(STR)), rename=("bee" if "rename" in F and named else None)))
     if "skip_field" in F: fs.insert(1, field(nm("s"), BOOL, skip=True))
     if "compact" in F: fs.append(field(nm("c"), U64, compact=True))
-    if "phantom" in F: fs.insert(0, field(nm("p"), ph(P("U") if "skipped_param" in F else U8)))
+    if "phantom" in F:
+        m = ph(P("U") if "skipped_param" in F else U8)
+        fs.insert(0, field(nm("p"), m))
+        # markers INSIDE tuple members, at the front / in the middle / twice, each followed by members of different widths
+        fs.append(field(nm("pt"), tup(U8, m, U16, U32)))
+        fs.append(field(nm("pu"), opt(tup(m, BOOL, U64, STR, m, U16))))
     if "generic" in F: fs.append(field(nm("t"), tup(P("T"), arr(P("T"), 3))))
     if "phantom_arg" in F: fs.append(field(nm("w"), vec(P("W"))))
     if "skipped_param" in F and "phantom" not in F: fs.append(field(nm("u"), ph(P("U"))))
@@ -135,7 +140,7 @@ def rand_ty(r, depth, params, allow_self, top=True):
     if k == 0: return vec(rand_ty(r, depth - 1, params, False, False))
     if k == 1: return opt(rand_ty(r, depth - 1, params, False, False))
     if k == 2: return box(rand_ty(r, depth - 1, params, False, top))
-    if k == 3: return tup(*[(ph(r.choice(leaves)) if r.random() < 0.15 else rand_ty(r, depth - 1, params, False, False)) for _ in range(r.randrange(0, 4))])
+    if k == 3: return tup(*[(ph(r.choice(leaves)) if r.random() < 0.2 else rand_ty(r, depth - 1, params, False, False)) for _ in range(r.choice([0, 1, 2, 3, 3, 4, 5, 6]))])
     if k == 4: return arr(rand_ty(r, depth - 1, params, False, False), r.choice([0, 1, 2, 5]))
     if k == 5: return T2("result", rand_ty(r, depth - 1, params, False, False), rand_ty(r, depth - 1, params, False, False))
     if k == 6: return T2("btreemap", r.choice([U8, U32, STR]), rand_ty(r, depth - 1, params, False, False))
